@@ -125,8 +125,11 @@ Init == \E k \in Range(Kinds) \cap SeedKinds, n \in BOOLEAN :
             /\ d = 0
             /\ deep = (DeepAll \/ DeepSeed(k, n, m))
 
+\* wraps applied beyond depth 1 when DeepAll = FALSE (quick tier): without the near-duplicates
+\* (2 ~ 3, 10 ~ 9, 14 ~ 7, 17 ~ 16, 18, 24 ~ 31, 26 ~ 21, 28 ~ 27, 32 ~ 22)
+QuickWraps == (1..NWraps) \ {2, 10, 14, 17, 18, 24, 26, 28, 32}
 Wrap(w, n) == /\ d < MaxDepth
-              /\ (d = 0 \/ DeepAll \/ deep)
+              /\ (d = 0 \/ DeepAll \/ (deep /\ w \in QuickWraps))
               /\ (w \in {12, 13, 35, 36} => j.t # "x")
               /\ T' = WrapT(w, n, T)
               /\ j' = WrapJ(w, T, j)
